@@ -159,10 +159,41 @@ func (r *Report) Write(path string) {
 
 // Compare evaluates a case on both sides. impl returns the canonical implementation
 // result for a case line; shrink proposes smaller variants of a case line.
-func (r *Report) Compare(m *Model, caseLine string, impl func(string) string, shrink func(string) []string) bool {
+// timed runs the implementation on a case and gives up after a while: a call that does not
+// return is reported as the result "hang" (its goroutine is abandoned)
+var hangs int
+
+// markCase records the case about to run, so that the check can name it if the process dies
+// (a fatal runtime error such as out-of-memory cannot be recovered from)
+var caseMarkPath string
+
+func markCase(caseLine string) {
+	if caseMarkPath != "" {
+		os.WriteFile(caseMarkPath, []byte(caseLine), 0644)
+	}
+}
+
+func timed(impl func(string) string, caseLine string) string {
+	markCase(caseLine)
+	if hangs >= 3 { // enough evidence; do not pile up spinning goroutines
+		return "hang (not run: three earlier cases did not return)"
+	}
+	ch := make(chan string, 1)
+	go func() { ch <- impl(caseLine) }()
+	select {
+	case s := <-ch:
+		return s
+	case <-time.After(20 * time.Second):
+		hangs++
+		return "hang"
+	}
+}
+
+func (r *Report) Compare(m *Model, caseLine string, impl0 func(string) string, shrink func(string) []string) bool {
 	if m.cmd == nil {
 		return true
 	}
+	impl := func(l string) string { return timed(impl0, l) }
 	got := impl(caseLine)
 	want := m.Ask(caseLine)
 	if got == want {
